@@ -23,7 +23,7 @@ META = {}
 class Inst:
     def __init__(self, name, harness, defs=None, unwind=2, unwindset=None, objbits=8, cap_quick=300, cap_thorough=1500,
                  types=None, extra_types=None, tmr_cbs=None, csdo_cbs=None, fp_override=None, family=None,
-                 conversion_check=False, solver=None, weight=1, collect_functions=True, bounds=None):
+                 conversion_check=False, solver=None, weight=1, collect_functions=True, bounds=None, harness_only=None):
         self.name = name
         self.harness = harness
         self.defs = dict(defs or {})
@@ -43,6 +43,7 @@ class Inst:
         self.weight = weight
         self.collect_functions = collect_functions
         self.bounds = bounds
+        self.harness_only = set(harness_only or [])
 
     def bounds_text(self):
         us = ', '.join('%s:%s' % (k if isinstance(k, str) else '%s#%d' % k, v) for k, v in sorted(self.unwindset.items(), key=str))
@@ -90,8 +91,79 @@ def c06(tier):
     return out
 
 
+# --------------------------------------------------------------------------- #
+# C07 / C08 timer                                                               #
+# --------------------------------------------------------------------------- #
+def tmr_inst(name, P, K, isr, ops=None, tmax=7, weight=1):
+    # list lengths are bounded by the pool size and by the number of creations in the sequence
+    nc = sum(1 for o in ops if o == 0) if ops is not None else P
+    b = min(P, max(nc, 1)) + 1
+    defs = {'P': P, 'K': K, 'ISR': isr, 'TMAX': tmax, 'CO_VERIF_TMR_POOL_HOOK': None}
+    if isr:
+        defs['ENV_PREEMPT'] = None
+    if isr == 2:
+        defs['NPRE'] = 10
+    if ops is not None:
+        defs['OPSEQ'] = '{' + ','.join(str(o) for o in ops) + '}'
+    return Inst(name, 'tmr_bmc.c', defs, unwind=max({0: 0, 1: 26, 2: 12}[isr], K + 2, tmax + 3, 10),
+                unwindset={'COTmrDelete': b, 'COTmrProcess': b if isr < 2 else b + 1, 'COTmrInsert': b, 'COTmrRemove': b + 1, 'COTmrReset': P + 1,
+                           'check_pools': P + 2, 'CoVerifTmrPool': P + 1},
+                types=[], fp_override={'COTmrProcess.function_pointer_call.1': ['cb']}, weight=weight, objbits=9,
+                harness_only=['P', 'K', 'ISR', 'TMAX', 'OPSEQ', 'NPRE'], family='tmr_bmc',
+                bounds='timer pool %d (separate blocks), operation kinds %s, arguments symbolic, times 0..%d ticks%s' % (
+                    P, ''.join('CDTP'[o] for o in ops) if ops else '%d symbolic' % K, tmax,
+                    {0: '', 1: ', tick service may preempt before every lock / after every unlock of create/delete; process deferred arbitrarily',
+                     2: ', tick service may preempt at every lock/unlock incl. inside process (weak oracle)'}[isr]))
+
+
+def op_seqs(K, first=(0,)):
+    import itertools
+    out = []
+    for rest in itertools.product(range(4), repeat=K - 1):
+        for f in first:
+            out.append((f,) + rest)
+    return out
+
+
+def c07(tier):
+    out = []
+    if tier == 'quick':
+        cfg = [(1, 4), (2, 4), (3, 4)]
+    else:
+        cfg = [(1, 5), (2, 5), (3, 5), (4, 5)]
+    for P, K in cfg:
+        for ops in op_seqs(K):
+            # a pool of P behaves like a smaller one until P creations happened: covered by the smaller pool
+            if P > 2 and sum(1 for o in ops if o == 0) < P:
+                continue
+            out.append(tmr_inst('tmr_bmc_p%d_%s' % (P, ''.join('CDTP'[o] for o in ops)), P, K, 0, ops, weight=1))
+    out.append(Inst('tmr_conv_low', 'tmr_conv.c', {'MODE': 0}, unwind=2, types=[], family='tmr_conv', weight=100,
+                    bounds='timer frequency 0..10000 Hz symbolic (all of the freq <= unit branch), two 16-bit symbolic times, unit in {1000, 10000}'))
+    for qm in ((15,) if tier == 'quick' else (15, 63)):
+        for unit in (1000, 10000):
+            out.append(Inst('tmr_conv_mult_u%d_q%d' % (unit, qm), 'tmr_conv.c', {'MODE': 1, 'QMAX': qm, 'UNIT': unit}, unwind=2, types=[], weight=100,
+                            bounds='timer frequency = q * %d, q in 1..%d symbolic, two 16-bit symbolic times' % (unit, qm)))
+    return out
+
+
+def c08(tier):
+    out = []
+    if tier == 'quick':
+        cfg = [(1, 2, 4, 7), (2, 1, 3, 2)]
+    else:
+        cfg = [(1, 2, 5, 7), (1, 3, 4, 7), (2, 1, 4, 2), (2, 2, 3, 2)]
+    for isr, P, K, tmax in cfg:
+        for ops in op_seqs(K):
+            if isr == 2 and 3 not in ops:
+                continue   # the weak-oracle family is about preemption inside process
+            out.append(tmr_inst('tmr_isr%d_p%d_%s' % (isr, P, ''.join('CDTP'[o] for o in ops)), P, K, isr, ops, tmax=tmax, weight=1 + isr))
+    return out
+
+
 PROPS = {
     'C06': c06,
+    'C07': c07,
+    'C08': c08,
 }
 
 
